@@ -32,6 +32,7 @@ type poolCase struct {
 }
 
 type poolObs struct {
+	DataNil bool // Data() == nil: compared with the fresh twin only (the model speaks about keys)
 	Data    []string
 	Params  string
 	Errors  int
@@ -66,7 +67,7 @@ func newPoolRouter(hook bool) *poolRouter {
 	r := rux.New(rux.HandleMethodNotAllowed)
 	pr.r = r
 	r.Use(func(c *rux.Context) { // the probe: first handler of every request
-		o := &poolObs{Errors: len(c.Errors), Aborted: c.IsAborted(), Status: c.StatusCode(), Length: c.Length()}
+		o := &poolObs{DataNil: c.Data() == nil, Errors: len(c.Errors), Aborted: c.IsAborted(), Status: c.StatusCode(), Length: c.Length()}
 		for k := range c.Data() {
 			switch k {
 			case rux.CTXCurrentRouteName, rux.CTXCurrentRoutePath:
@@ -202,6 +203,7 @@ func poolReplay(s *Summary, raw json.RawMessage) {
 		want.Data = append(want.Data, k.(string))
 	}
 	sort.Strings(want.Data)
+	want.DataNil = obs.DataNil
 	if !reflect.DeepEqual(*obs, want) {
 		s.mismatch(desc(fmt.Sprintf("the first handler of the last request observed %+v, pristine is %+v", *obs, want)), c)
 		return
